@@ -428,12 +428,17 @@ struct MethodEntry {
     std::function<void*(const std::vector<CallArg>&)> resolve;
 };
 
+// Whether a policy was *written* as an indirect one: stated by the policy's
+// translation unit, not asked of the library (a library that forgets that a
+// policy is indirect must not make the harness forget it too).
+template<class P>
+struct DeclaredIndirect;
+
 template<class P>
 struct Engine {
     static constexpr bool checked =
         policy::has_facet<P, policy::runtime_checks>;
-    static constexpr bool indirect =
-        policy::has_facet<P, policy::indirect_vptr>;
+    static constexpr bool indirect = DeclaredIndirect<P>::value;
 
     // ---- registration styles ----------------------------------------------
     // s0: one use_classes with every class
@@ -456,6 +461,14 @@ struct Engine {
         class_declaration<VM, VR, P>, class_declaration<VZ, VL, VM, P>,
         class_declaration<VY, VZ, P>>;
 
+    // s4: as s2, in the type-list form class_declaration<types<...>>
+    template<class... T>
+    using CDT = class_declaration<detail::types<T...>>;
+    using per_class_types = L<
+        CDT<A, P>, CDT<B, A, P>, CDT<C, A, P>, CDT<D, B, P>, CDT<E, B, X, P>,
+        CDT<F, C, X, P>, CDT<G, D, P>, CDT<X, P>, CDT<VR, P>, CDT<VL, VR, P>,
+        CDT<VM, VR, P>, CDT<VZ, VL, VM, P>, CDT<VY, VZ, P>>;
+
     template<class List>
     struct slots_of;
     template<class... T>
@@ -474,6 +487,7 @@ struct Engine {
     Slot<all_in_one> s0;
     slots_of<per_edge> s1;
     slots_of<per_class> s2;
+    slots_of<per_class_types> s4;
 
     // order: a permutation seed applied to the records of s1 / s2
     // per-class registration of classes that were held back (C09 histories)
@@ -512,7 +526,11 @@ struct Engine {
             for (int i : order) {
                 if (i < NCLS && i != left_out &&
                     std::find(late.begin(), late.end(), i) == late.end()) {
-                    s2.construct(i);
+                    if (style == 4) {
+                        s4.construct(i);
+                    } else {
+                        s2.construct(i);
+                    }
                 }
             }
         }
@@ -522,6 +540,7 @@ struct Engine {
         s0.destroy();
         s1.destroy_all();
         s2.destroy_all();
+        s4.destroy_all();
     }
 
     // ---- methods -----------------------------------------------------------
@@ -805,6 +824,10 @@ struct Engine {
             // out of the catalog: cases decide which definitions are live
             {
                 typename M::template add_function<D::fn> adder(&D::next);
+                // a second registration object for the same function, this
+                // time without a next pointer (C18's domain: instantiated
+                // twice); it must leave the first registration intact
+                typename M::template add_function<D::fn> again;
                 detail::definition_info* last = nullptr;
                 for (auto& di : M::fn.specs) {
                     last = &di;
